@@ -297,9 +297,55 @@ flow:
           at: end
 `
 
+// selFlow: a one-probe flow; three of them share the pattern sel.com/* and one sits on each exact path,
+// so that every sel.com/<p> transaction selects the three shared flows plus the one of its own path.
+func selFlow(name, url string) string {
+	return fmt.Sprintf(`name: %[1]s
+filter:
+  url: %[2]s
+processors:
+  p_%[1]s:
+    processor: VerifProbe
+flow:
+  request:
+    - from:
+        stream:
+          name: globalStream
+          at: start
+      to:
+        processor:
+          name: p_%[1]s
+    - from:
+        processor:
+          name: p_%[1]s
+      to:
+        stream:
+          name: globalStream
+          at: end
+  response:
+    - from:
+        stream:
+          name: globalStream
+          at: start
+      to:
+        stream:
+          name: globalStream
+          at: end
+`, name, url)
+}
+
+var selPaths = []string{"a", "b", "c", "d"}
+
 func config() sim.Config {
 	return sim.Config{
 		Flows: map[string]string{
+			"sw1.yaml": selFlow("sw1", "sel.com/*"),
+			"sw2.yaml": selFlow("sw2", "sel.com/*"),
+			"sw3.yaml": selFlow("sw3", "sel.com/*"),
+			"sa.yaml":  selFlow("sa", "sel.com/a"),
+			"sb.yaml":  selFlow("sb", "sel.com/b"),
+			"sc.yaml":  selFlow("sc", "sel.com/c"),
+			"sd.yaml":  selFlow("sd", "sel.com/d"),
 			"flim.yaml":   limiterFlow("flim", "lim.com", "qfixchild"),
 			"fconc.yaml":  limiterFlow("fconc", "conc.com", "qconc"),
 			"fqueue.yaml": queueFlow,
@@ -318,12 +364,19 @@ type stats struct {
 	retryAsked                atomic.Int64
 	probes                    atomic.Int64
 	noReply                   atomic.Int64
+	selections                atomic.Int64
 }
 
 func worker(eng *sim.Engine, round, wk, n int, st *stats, r *sim.Rand) {
 	for i := 0; i < n; i++ {
 		id := fmt.Sprintf("r%d-w%d-%d", round, wk, i)
-		switch (wk + i) % 5 {
+		switch (wk + i) % 6 {
+		case 5: // flow selection isolation: the id names the path, the hook events name the flows that ran
+			p := selPaths[(wk+i/6)%len(selPaths)]
+			sid := id + "-sel-" + p
+			eng.SendRequest(sim.Txn{ID: sid, Method: "GET", URL: "sel.com/" + p, Headers: map[string]string{}})
+			eng.SendResponse(sim.Txn{ID: sid, Method: "GET", URL: "sel.com/" + p, Status: 200})
+			st.selections.Add(1)
 		case 0: // fixed quota with hierarchy and groups
 			g := []string{"ga", "gb"}[(wk+i/5)%2]
 			res := eng.SendRequest(sim.Txn{ID: id, Method: "GET", URL: "lim.com/x", Headers: map[string]string{"x-group": g}})
@@ -402,7 +455,19 @@ func main() {
 	var ctxMu sync.Mutex
 	ctxBad := map[string]int{}
 	ctxOK := 0
+	selRan := map[string]map[string]bool{} // selection transaction id -> flows whose probe ran on its request
 	sim.GlobalSink.OnEach(func(e verifhook.Event) {
+		if e.Kind == "proc" && len(e.Args) >= 5 && strings.Contains(e.Args[4], "-sel-") {
+			ctxMu.Lock()
+			m := selRan[e.Args[4]]
+			if m == nil {
+				m = map[string]bool{}
+				selRan[e.Args[4]] = m
+			}
+			m[e.Args[0]] = true
+			ctxMu.Unlock()
+			return
+		}
 		if e.Kind != "probe.ctx" || len(e.Args) < 4 {
 			return
 		}
@@ -427,6 +492,24 @@ func main() {
 			break
 		}
 		sim.GlobalSink.Drain()
+		calib := map[string]string{}
+		for _, p := range selPaths {
+			var seen [2]string
+			for k := 0; k < 2; k++ {
+				cid := fmt.Sprintf("calib%d-%d-sel-%s", round, k, p)
+				eng.SendRequest(sim.Txn{ID: cid, Method: "GET", URL: "sel.com/" + p, Headers: map[string]string{}})
+				eng.SendResponse(sim.Txn{ID: cid, Method: "GET", URL: "sel.com/" + p, Status: 200})
+				ctxMu.Lock()
+				seen[k] = strings.Join(sim.SortedKeys(selRan[cid]), ",")
+				delete(selRan, cid)
+				ctxMu.Unlock()
+			}
+			if seen[0] == seen[1] {
+				calib[p] = seen[0]
+			} else {
+				v.Count("selection_calibration_unstable", 1)
+			}
+		}
 		st := &stats{}
 		var stop atomic.Bool
 		var bg sync.WaitGroup
@@ -501,6 +584,38 @@ func main() {
 				v.Violate("C18/concurrent-quota-over-admission", fmt.Sprintf("in-flight monitor saw %d > 4 (%s)", m, note), note)
 			}
 		}
+		// flow selection isolation: a sel.com/<p> transaction runs its own path's flow and never the
+		// flow of another path (sound for any tree build order); in reload-free rounds it also runs
+		// exactly what a transaction alone ran for that path right after the reload (calibration)
+		ctxMu.Lock()
+		for sid, ran := range selRan {
+			p := sid[strings.LastIndex(sid, "-")+1:]
+			if strings.HasPrefix(sid, "calib") {
+				continue
+			}
+			v.Count("selection_transactions_judged", 1)
+			got := strings.Join(sim.SortedKeys(ran), ",")
+			bad := ""
+			for f := range ran {
+				if len(f) == 2 && f[0] == 's' && f[1:] != p {
+					bad = fmt.Sprintf("transaction %s (sel.com/%s) ran flow %s of another path; flows that ran: %s", sid, p, f, got)
+				}
+			}
+			if bad == "" && !ran["s"+p] {
+				bad = fmt.Sprintf("transaction %s (sel.com/%s) did not run its own flow s%s; flows that ran: %s", sid, p, p, got)
+			}
+			if bad == "" && !noisy && calib[p] != "" && got != calib[p] {
+				bad = fmt.Sprintf("transaction %s (sel.com/%s) ran %s, a transaction alone ran %s", sid, p, got, calib[p])
+			}
+			if bad != "" {
+				v.Violate("C18/flow-selection/transaction-ran-flows-selected-for-another", bad+" ("+note+")", bad)
+				break
+			}
+		}
+		for k := range selRan {
+			delete(selRan, k)
+		}
+		ctxMu.Unlock()
 		if st.noReply.Load() > 0 {
 			v.Violate("C18/probe-actions-lost", fmt.Sprintf("%d probe transactions got no request_headers action back (%s)", st.noReply.Load(), note), note)
 		}
